@@ -363,6 +363,7 @@ TJ = _mk('TJ', cache=JsonCache())
 T2 = _mk('T2', cache=labtech.cache.PickleCache(pickle_protocol=2))
 
 TK = _mk('TK', cache=None, max_parallel=2)     # never cached *and* limited
+TFN = _mk('TFN', cache=None, extra={'filter_context': _filter_even})    # never cached, per-parameter context filter
 _SHARED_CACHE = labtech.cache.PickleCache()
 TC1 = _mk('TC1', max_parallel=2, cache=_SHARED_CACHE)   # two unrelated types with identical decorator
 TC2 = _mk('TC2', max_parallel=2, cache=_SHARED_CACHE)   # arguments (the very same cache object)
@@ -385,8 +386,8 @@ try:
 except TypeError:            # a labtech.task() that does not accept this spelling
     TL = _mk('TL', max_parallel=1)
 
-TYPES = {c.__name__: c for c in (TA, TB, TC, TD, TN, TM, TF, TP, TJ, T2, TG, TX, TH, TK, TC1, TC2, TL)}
+TYPES = {c.__name__: c for c in (TA, TB, TC, TD, TN, TM, TF, TP, TJ, T2, TG, TX, TH, TK, TC1, TC2, TL, TFN)}
 # the limits and cacheability the *declarations above* ask for - never read back from labtech
 MAX_PARALLEL = {'TA': None, 'TB': 1, 'TC': 2, 'TD': 3, 'TN': None, 'TM': 1, 'TF': None, 'TP': None, 'TJ': None, 'T2': None,
-                'TG': None, 'TX': None, 'TH': None, 'TK': 2, 'TC1': 2, 'TC2': 2, 'TL': 1}
-CACHEABLE = {n: n not in ('TN', 'TM', 'TK') for n in TYPES}
+                'TG': None, 'TX': None, 'TH': None, 'TK': 2, 'TC1': 2, 'TC2': 2, 'TL': 1, 'TFN': None}
+CACHEABLE = {n: n not in ('TN', 'TM', 'TK', 'TFN') for n in TYPES}
